@@ -24,6 +24,16 @@ CHECKS = {
         design_ref='4 (C16)', technique='TLA+/TLC model checking + exhaustive spec-to-code replay + trace validation',
         note=_NOTE + ' mtscomp 1.0.2 trusted for the .cbin container.'),
 }
+CHECKS['C20'] = dict(
+    text='TLC explores every scripted server (data-URL scripts up to length 3 quick / 5 thorough over '
+         '{good, corrupt, 404}, exhausted script = connection error) x checksum behaviour (correct, '
+         'wrong, unavailable; stable and changing between requests) x prior file state through the '
+         'step-by-step transcription of download_file and proves ReturnedImpliesValid, NoRedundantGet, '
+         'ExactlyOneRetry, FaultsRaise, at most two GETs and termination; every terminal state is '
+         'replayed against the real download_file behind the `responses` mock (request sequence, '
+         'outcome, final file class compared); random longer scripts are trace-validated.',
+    design_ref='4 (C20)', technique='TLA+/TLC model checking + exhaustive spec-to-code replay + trace validation',
+    note=_NOTE + ' The `responses` mock stands for the HTTP server.')
 
 NOT_APPLICABLE = {}
 for e in ENGINES:
